@@ -248,6 +248,27 @@ func NewWorld(rng *rand.Rand, opt WorldOptions) *World {
 			nodeFields[m] = append(nodeFields[m], nfield{name: "i0_c", kind: fkStr, owner: ifaceHome})
 		}
 		ifaceMembers["I0"] = append([]string{}, w.NodeType[:2]...)
+		// a second interface that only the second implementer has: an abstract type overlapping I0 in part
+		hs.Defs = append(hs.Defs, &Def{Kind: "INTERFACE", Name: "I1", Fields: []Field{{Name: "id", Type: "ID!"}}})
+		if d1 := hs.Def(w.NodeType[1]); d1 != nil {
+			d1.Ifaces = append(d1.Ifaces, "I1")
+		}
+		// another service declares the interface too, with a field of its own which it provides for the second
+		// implementer; the home service provides that field for the first one as a plain field: the owner of an
+		// interface field then differs from implementation to implementation
+		if n >= 2 && rng.Intn(2) == 0 {
+			away := (ifaceHome + 1) % n
+			as := w.Services[away]
+			addNode(as)
+			as.Defs = append(as.Defs, &Def{Kind: "INTERFACE", Name: "I0", Fields: []Field{{Name: "id", Type: "ID!"}, {Name: "i0_d", Type: "String"}}})
+			d1 := ensureNodeType(as, w.NodeType[1])
+			d1.Ifaces = append(d1.Ifaces, "I0")
+			d1.Fields = append(d1.Fields, Field{Name: "i0_d", Type: "String"})
+			nodeFields[w.NodeType[1]] = append(nodeFields[w.NodeType[1]], nfield{name: "i0_d", kind: fkStr, owner: away})
+			d0 := ensureNodeType(hs, w.NodeType[0])
+			d0.Fields = append(d0.Fields, Field{Name: "i0_d", Type: "String"})
+			nodeFields[w.NodeType[0]] = append(nodeFields[w.NodeType[0]], nfield{name: "i0_d", kind: fkStr, owner: ifaceHome})
+		}
 		// a Node type of the home service points at it
 		tn := w.NodeType[rng.Intn(k)]
 		kind := []fieldKind{fkUnion, fkUnions}[rng.Intn(2)]
